@@ -50,6 +50,22 @@ def hostile_calls():
     for bad in ('str', None, 5, bytearray(b'a\n')):
         add('diff-type-%s' % type(bad).__name__, 'diff', True,
             'write_diff', bad)
+    # ... and the same wrong types accompanied by valid explicit options
+    # (an option must not switch validation off)
+    for kw in ({'encoding': 'utf-8'}, {'encoding': 'latin-1',
+                                       'line_endings': 'unix'}):
+        add('preamble-type-bytes+%s' % '+'.join(sorted(kw)), 'preamble', True,
+            'write_preamble', b'bytes\n', **kw)
+        add('diff-type-str+%s' % '+'.join(sorted(kw)), 'diff', True,
+            'write_diff', 'str\n', **kw)
+    add('diff-type-str+text', 'diff', True, 'write_diff', 'str\n',
+        diff_type='text', encoding='utf-8')
+    add('meta-type-str+encoding', 'meta', True, 'write_meta', '{"a": 1}',
+        encoding='utf-8')
+    add('meta-type-list+format', 'meta', True, 'write_meta', [1],
+        meta_format='json')
+    add('preamble-type-int+indent', 'preamble', True, 'write_preamble', 5,
+        indent=0, mimetype='text/plain')
     add('preamble-empty', 'preamble', True, 'write_preamble', '')
     add('meta-empty', 'meta', True, 'write_meta', {})
     add('diff-empty', 'diff', True, 'write_diff', b'')
